@@ -139,7 +139,26 @@ def gen_nested_nests(rng, alts, all_one=False):
     cs = list(alts)
     if rng.random() < 0.5:
         rng.shuffle(cs)
-    return {'syntax': syntax, 'choice_set': cs, 'list': nests}
+    out = {'syntax': syntax, 'choice_set': cs, 'list': nests}
+    gen_nest_names(rng, out)
+    return out
+
+
+NAME_POOL = ['nest_1', 'nest_2', 'A', 'A', 'urban']
+
+
+def gen_nest_names(rng, n):
+    """nest objects that already carry a name: re-used from an earlier specification (where
+    `Nests.__init__` auto-named them nest_<position>), or named by the user, possibly alike"""
+    if n['syntax'] == 'tuple' or len(n['list']) < 2:
+        return
+    u = rng.random()
+    if u < 0.3:
+        n['reuse'] = True
+    elif u < 0.45:
+        for m in n['list']:
+            if rng.random() < 0.8:
+                m['name'] = rng.choice(NAME_POOL)
 
 
 def gen_cnl_nests(rng, alts):
@@ -174,7 +193,9 @@ def gen_cnl_nests(rng, alts):
     cs = list(alts)
     if rng.random() < 0.5:
         rng.shuffle(cs)
-    return {'syntax': syntax, 'choice_set': cs, 'list': nests}
+    out = {'syntax': syntax, 'choice_set': cs, 'list': nests}
+    gen_nest_names(rng, out)
+    return out
 
 
 def gen_case(rng, family, k=None):
@@ -190,6 +211,10 @@ def gen_case(rng, family, k=None):
         'util': [gen_util(rng, a, ncols) for a in alts],
         'av': gen_av(rng, alts, rows),
     }
+    if case['av'] is not None and rng.random() < 0.6:
+        order = list(alts)
+        rng.shuffle(order)
+        case['av_order'] = order
     if family == 'mev':
         case['logG'] = [gen_util(rng, f'g{a}', ncols) for a in alts]
     if family in ('nested', 'nestedmu'):
@@ -326,12 +351,18 @@ def mk_param(p):
 
 
 def mk_av(case):
+    """the availability dict; its keys are inserted in the order `av_order` when the case has one
+    (same keys as the utilities, another insertion order: dictionaries are matched by key)"""
     from biogeme.expressions import Variable
 
     if case.get('av') is None:
         return None
+    by_alt = dict(zip(case['alts'], case['av']))
+    order = [a for a in (case.get('av_order') or case['alts']) if a in by_alt]
+    order += [a for a in case['alts'] if a not in order]
     out = {}
-    for a, spec in zip(case['alts'], case['av']):
+    for a in order:
+        spec = by_alt[a]
         out[a] = int(spec['v']) if spec['k'] == 'num' else Variable(f'AV{a}')
     return out
 
@@ -353,16 +384,24 @@ def mk_nests(case):
     for j, m in enumerate(n['list']):
         mu = mk_param(m['mu'])
         form = m.get('form') or ('tup' if n['syntax'] == 'tuple' else 'obj')
+        kw = {'name': m['name']} if m.get('name') else {}
         if cnl:
             al = {}
             for a, x, aform in m['alphas']:
                 al[a] = float(x) if aform == 'num' else Beta(f'alpha_{j}_{a}', float(x), None, None, 1)
-            items.append((mu, al) if form == 'tup' else OneNestForCrossNestedLogit(nest_param=mu, dict_of_alpha=al))
+            items.append((mu, al) if form == 'tup' else OneNestForCrossNestedLogit(nest_param=mu, dict_of_alpha=al, **kw))
         else:
-            items.append((mu, list(m['alts'])) if form == 'tup' else OneNestForNestedLogit(nest_param=mu, list_of_alternatives=list(m['alts'])))
+            items.append((mu, list(m['alts'])) if form == 'tup' else OneNestForNestedLogit(nest_param=mu, list_of_alternatives=list(m['alts']), **kw))
     items = tuple(items)
+    cls = NestsForCrossNestedLogit if cnl else NestsForNestedLogit
+    if n.get('reuse'):
+        # an earlier specification used each of the later nest objects on its own: the constructor
+        # wrote the automatic name nest_1 into the object; the objects are then re-used below
+        members = lambda o: list(o.dict_of_alpha) if cnl else list(o.list_of_alternatives)  # noqa: E731
+        for obj in items[1:]:
+            if not isinstance(obj, tuple):
+                cls(choice_set=sorted(set(n['choice_set']) | set(members(obj))), tuple_of_nests=(obj,))
     if n['syntax'] == 'object':
-        cls = NestsForCrossNestedLogit if cnl else NestsForNestedLogit
         return cls(choice_set=list(n['choice_set']), tuple_of_nests=items)
     return items
 
@@ -920,6 +959,26 @@ CORPUS = [
          {'mu': {'v': 3.0, 'form': 'beta_fixed', 'name': 'm1'}, 'alphas': [[9, 0.75, 'num'], [21, 0.5, 'num']]}]},
      'mu': {'v': 1.25, 'form': 'beta_free', 'name': 'mu_top'}},
 ]
+CORPUS += [
+    # availability dict with the keys of the utilities in another insertion order (seeded agent_C05_1)
+    {'family': 'logit', 'alts': [1, 2, 3, 4], 'rows': 3,
+     'cols': {'X0': [0.25, -1.0, 2.0], 'X1': [1.5, 0.25, -0.5], 'X2': [-0.75, 1.0, 0.125]},
+     'util': [{'k': 'var', 'col': 'X0'}, {'k': 'var', 'col': 'X1'}, {'k': 'var', 'col': 'X2'}, {'k': 'num', 'c': 0.5}],
+     'av': [{'k': 'col', 'vals': [1, 1, 1]}, {'k': 'col', 'vals': [1, 0, 1]}, {'k': 'col', 'vals': [0, 1, 1]}, {'k': 'col', 'vals': [1, 1, 0]}],
+     'av_order': [4, 2, 1, 3]},
+    {'family': 'nested', 'alts': [11, 2, 30, 4], 'rows': 2, 'cols': {'X0': [0.25, -1.0], 'X1': [1.5, 0.25], 'X2': [-0.75, 1.0]},
+     'util': [{'k': 'var', 'col': 'X0'}, {'k': 'var', 'col': 'X1'}, {'k': 'var', 'col': 'X2'}, {'k': 'num', 'c': 0.5}],
+     'av': [{'k': 'num', 'v': 1}, {'k': 'col', 'vals': [0, 1]}, {'k': 'num', 'v': 1}, {'k': 'col', 'vals': [1, 0]}],
+     'av_order': [4, 30, 2, 11],
+     'nests': {'syntax': 'tuple', 'choice_set': [11, 2, 30, 4], 'list': [{'mu': {'v': 1.75, 'form': 'num', 'name': 'm0'}, 'alts': [11, 2]},
+                                                                       {'mu': {'v': 1.25, 'form': 'num', 'name': 'm1'}, 'alts': [30, 4]}]}},
+    # a nest object auto-named by an earlier specification, re-used as the second nest (seeded agent_C06_1)
+    {'family': 'nested', 'alts': [1, 2, 3, 4, 5], 'rows': 2, 'cols': {'X0': [0.5, -1.0], 'X1': [1.0, 0.25], 'X2': [-0.5, 0.75]},
+     'util': [{'k': 'var', 'col': 'X0'}, {'k': 'var', 'col': 'X1'}, {'k': 'num', 'c': 0.25}, {'k': 'var', 'col': 'X2'}, {'k': 'num', 'c': -0.5}],
+     'av': None,
+     'nests': {'syntax': 'object', 'choice_set': [1, 2, 3, 4, 5], 'reuse': True,
+               'list': [{'mu': {'v': 1.625, 'form': 'num', 'name': 'ma'}, 'alts': [1, 2]}, {'mu': {'v': 2.75, 'form': 'num', 'name': 'mb'}, 'alts': [4, 5]}]}},
+]
 CORPUS_ORDERED = [
     {'family': 'ordered_probit', 'labels': [1, 2, 5, 9], 'rows': 2, 'cols': {'X0': [0.15, -1.0], 'X1': [0.0, 0.0], 'X2': [0.0, 0.0]},
      'x': {'k': 'lin', 'b': 2.0, 'name': 'b_x', 'fixed': 0, 'col': 'X0', 'c': 0.0}, 'tau': -0.5, 'diffs': [[2, 0.75], [5, 1.0]]},
@@ -948,14 +1007,14 @@ def check(ctx) -> Result:
             res.tally('corpus')
         check_python_path(ctx, res, CORPUS_FINDINGS[0])
         check_ordered(ctx, res, CORPUS_FINDINGS[1])
-        n = ctx.n(60, 850)
+        n = ctx.n(40, 800)
         for _ in range(n):
             for fam in FAMILIES:
                 case = gen_case(rng, fam)
                 check_config(ctx, res, case, shift_c=rng.choice([dyadic(rng, -4, 4), 1.5, -2.25]))
             if len(res.violations) > 20:
                 break
-        for _ in range(ctx.n(40, 1500)):
+        for _ in range(ctx.n(30, 1500)):
             check_ordered(ctx, res, gen_ordered(rng, rng.choice(ORDERED)))
         for _ in range(ctx.n(24, 400)):
             check_malformed(ctx, res, gen_malformed(rng, rng.choice(['nested', 'nestedmu', 'cnl', 'cnlmu'])))
